@@ -9,4 +9,4 @@ sed -i "$2" "$D/$1"
 if diff -q "/repo/$1" "$D/$1" >/dev/null; then echo "MUTATION DID NOT APPLY"; exit 3; fi
 shift 2
 EXTRA=""; [ "$1" = check ] && { mkdir -p "$D.out"; EXTRA="--verif $D.out"; }
-/verif/bin/govc "$@" --repo "$D" $EXTRA 2>&1 | grep -v "cover-ok\|discharged\|^note" | sed "s|$D|REPO|g" | cut -c1-220 | head -20
+/verif/bin/govc "$@" --repo "$D" $EXTRA 2>&1 | grep -v "cover-ok\|^  discharged\|^note" | sed "s|$D|REPO|g" | cut -c1-220 | head -20
